@@ -1,0 +1,422 @@
+//go:build verif
+
+package rest
+
+// Contracts for property C15 (database configurations stay consistent): the data-structure invariants of the
+// gateway registry (rest/config_registry.go) -- no collection owned by two databases, a rejected change leaves the
+// registry unchanged, version bookkeeping. The multi-node protocol around it (config_manager.go) is not covered.
+// Comment-only; read by /verif/engine.
+//
+// Style note: a map lookup m[k] in a specification is a case split (absent key = zero value), which solvers refuse
+// inside quantifier patterns. Quantifiers that reason about the contents of a looked-up object therefore bind the
+// object to a variable (cg, e, p, cm, cs below) and state the lookup as an equation in the antecedent.
+
+//@ props C15
+
+// ---------- sentinel versions ----------
+
+//@ func isRegistryDbConfigVersionInvalid
+//@   pure
+//@ func RegistryDatabase.IsDeleted
+//@   pure
+//@ func RegistryDatabase.IsInvalid
+//@   pure
+
+//@ lemma sentinel_versions(d *RegistryDatabase)
+//@   requires d != nil
+//@   ensures[deleted] d.IsDeleted() <==> d.Version == "0-0"
+//@   ensures[invalid] d.IsInvalid() <==> d.Version == "0-1"
+//@   ensures[exclusive] !(d.IsDeleted() && d.IsInvalid())
+
+// ---------- collection conflicts between a database config and one registry version ----------
+
+// (s, c) is a collection both of the config `scopes` and of the registry version `rs`
+//@ pred cfl(scopes ScopesConfig, rs map[string]RegistryScope, s string, c string) bool
+//@   is (s in scopes) && (s in rs) && (c in scopes[s].Collections) && elem(rs[s].Collections, c)
+
+// the j-th collection of scope s of the registry version is also a collection of scope s of the config
+// (cm / cs: the config's collection map and the version's collection list for that scope)
+//@ pred cflAt(scopes ScopesConfig, rs map[string]RegistryScope, s string, cm CollectionsConfig, cs []string, j int) bool
+//@   is (s in scopes) && (s in rs) && cm == scopes[s].Collections && cs == rs[s].Collections && 0 <= j && j < len(cs) && (cs[j] in cm)
+
+// the config `scopes` and the registry version `rs` share no collection
+//@ pred noCfl(scopes ScopesConfig, rs map[string]RegistryScope) bool
+//@   is forall s string, cm CollectionsConfig, cs []string, j int :: {s in scopes, s in rs, cs[j] in cm} !cflAt(scopes, rs, s, cm, cs, j)
+
+//@ func findCollectionConflicts
+//@   safety on
+//@   ensures[sound] forall i int :: {result[i]} 0 <= i && i < len(result) ==> cfl(scopes, registryScopes, result[i].Scope, result[i].Collection)
+//@   ensures[none]  len(result) == 0 ==> noCfl(scopes, registryScopes)
+//@   loop * invariant[sound] forall i int :: {conflicts[i]} 0 <= i && i < len(conflicts) ==> cfl(scopes, registryScopes, conflicts[i].Scope, conflicts[i].Collection)
+//@   loop 1 invariant[none]  len(conflicts) == 0 ==> (forall s string, cm CollectionsConfig, cs []string, j int :: {s in scopes, s in registryScopes, cs[j] in cm} (s in #visited1) ==> !cflAt(scopes, registryScopes, s, cm, cs, j))
+//@   loop 2 invariant[ctx]   (scopeName in scopes) && scope.Collections == scopes[scopeName].Collections && (scopeName in registryScopes) && registryScope.Collections == registryScopes[scopeName].Collections
+//@   loop 2 invariant[none]  len(conflicts) == 0 ==> (forall s string, cm CollectionsConfig, cs []string, j int :: {s in scopes, s in registryScopes, cs[j] in cm} (s in #visited1) && s != scopeName ==> !cflAt(scopes, registryScopes, s, cm, cs, j))
+//@   loop 2 invariant[none2] len(conflicts) == 0 ==> (forall j int :: {registryScope.Collections[j]} 0 <= j && j < len(registryScope.Collections) ==> !(registryScope.Collections[j] in #visited2))
+//@   loop 3 invariant[ctx]   (scopeName in scopes) && scope.Collections == scopes[scopeName].Collections && (scopeName in registryScopes) && registryScope.Collections == registryScopes[scopeName].Collections && (collectionName in scope.Collections)
+//@   loop 3 invariant[none]  len(conflicts) == 0 ==> (forall s string, cm CollectionsConfig, cs []string, j int :: {s in scopes, s in registryScopes, cs[j] in cm} (s in #visited1) && s != scopeName ==> !cflAt(scopes, registryScopes, s, cm, cs, j))
+//@   loop 3 invariant[none2] len(conflicts) == 0 ==> (forall j int :: {registryScope.Collections[j]} 0 <= j && j < len(registryScope.Collections) && registryScope.Collections[j] != collectionName ==> !(registryScope.Collections[j] in #visited2))
+//@   loop 3 invariant[none3] len(conflicts) == 0 ==> (forall k int :: {registryScope.Collections[k]} 0 <= k && k <= #index ==> registryScope.Collections[k] != collectionName)
+
+// ---------- the registry as a whole ----------
+
+// cg is the config group g of r and has a database d / whose entry is e
+//@ pred entAt(r *GatewayRegistry, g string, cg *RegistryConfigGroup, d string) bool
+//@   is (g in r.ConfigGroups) && cg == r.ConfigGroups[g] && (d in cg.Databases)
+// (tagE / tagP: constantly-true markers from /verif/trusted/c15_trigger.spec; they give the entry-quantified
+// invariants one pattern term per entry)
+//@ pred entIs(r *GatewayRegistry, g string, cg *RegistryConfigGroup, d string, e *RegistryDatabase) bool
+//@   is tagE(g, cg, d, e) && (g in r.ConfigGroups) && cg == r.ConfigGroups[g] && (d in cg.Databases) && e == cg.Databases[d]
+// p is the previous version kept by e (an update of e is in flight)
+//@ pred prevIs(e *RegistryDatabase, p *RegistryDatabaseVersion) bool
+//@   is tagP(e, p) && p == e.PreviousVersion && p != nil
+//@ pred hasDb(r *GatewayRegistry, g string, d string) bool
+//@   is (g in r.ConfigGroups) && (d in r.ConfigGroups[g].Databases)
+//@ pred dbAt(r *GatewayRegistry, g string, d string) *RegistryDatabase
+//@   is r.ConfigGroups[g].Databases[d]
+
+// Well-formedness (true of every registry produced by NewGatewayRegistry / JSON decoding of a document written by
+// these functions): no nil config group, no nil database map, no nil database entry.
+//@ pred regWF(r *GatewayRegistry) bool
+//@   is r != nil && (forall g string :: {g in r.ConfigGroups} (g in r.ConfigGroups) ==> r.ConfigGroups[g] != nil && r.ConfigGroups[g].Databases != nil) &&
+//@      (forall g string, cg *RegistryConfigGroup, d string :: {g in r.ConfigGroups, d in cg.Databases} entAt(r, g, cg, d) ==> cg.Databases[d] != nil)
+
+// the config shares no collection with the registry version whose recorded scopes are x; nothing recorded = the
+// default collection only, on either side (as the code does)
+//@ pred noCflV(scopes ScopesConfig, x RegistryScopes) bool
+//@   is (len(x) != 0 ==> noCfl(scopes, x)) && (len(x) == 0 ==> noCfl(scopes, defaultOnlyRegistryScopes))
+//@ pred noCflC(scopes ScopesConfig, x RegistryScopes) bool
+//@   is (len(scopes) != 0 ==> noCflV(scopes, x)) && (len(scopes) == 0 ==> noCflV(DefaultOnlyScopesConfig, x))
+
+//@ func GatewayRegistry.getRegistryDatabase
+//@   safety on
+//@   requires regWF(r)
+//@   ensures[found]  result1 <==> hasDb(r, configGroupID, dbName)
+//@   ensures[entry]  result1 ==> result0 == dbAt(r, configGroupID, dbName)
+//@   ensures[absent] !result1 ==> result0 == nil
+
+// no other-named entry (of any config group) has this metadata ID
+//@ pred noMetaCfl(r *GatewayRegistry, dbName string, metadataID string) bool
+//@   is forall g string, cg *RegistryConfigGroup, d string :: {g in r.ConfigGroups, d in cg.Databases} entAt(r, g, cg, d) && d != dbName ==> cg.Databases[d].MetadataID != metadataID
+
+//@ func GatewayRegistry.hasMetadataIDConflict
+//@   safety on
+//@   requires regWF(r)
+//@   ensures[none] !result ==> noMetaCfl(r, dbName, metadataID)
+//@   ensures[some] result ==> !noMetaCfl(r, dbName, metadataID)
+//@   loop 1 invariant[none] forall g string, cg *RegistryConfigGroup, d string :: {g in r.ConfigGroups, d in cg.Databases} (g in #visited1) && entAt(r, g, cg, d) && d != dbName ==> cg.Databases[d].MetadataID != metadataID
+//@   loop 2 invariant[ctx]  configGroup != nil && (exists g string :: {g in r.ConfigGroups} (g in r.ConfigGroups) && r.ConfigGroups[g] == configGroup)
+//@   loop 2 invariant[none] forall g string, cg *RegistryConfigGroup, d string :: {g in r.ConfigGroups, d in cg.Databases} (g in #visited1) && cg != configGroup && entAt(r, g, cg, d) && d != dbName ==> cg.Databases[d].MetadataID != metadataID
+//@   loop 2 invariant[cur]  forall d string :: {d in configGroup.Databases} (d in #visited2) && d != dbName ==> configGroup.Databases[d].MetadataID != metadataID
+
+// getCollectionConflicts: empty result <==> no other-named entry (of any config group) has, in its current version,
+// a collection of the config.
+//@ pred noCurCfl(r *GatewayRegistry, dbName string, scopes ScopesConfig) bool
+//@   is forall g string, cg *RegistryConfigGroup, d string, e *RegistryDatabase :: {tagE(g, cg, d, e)} entIs(r, g, cg, d, e) && d != dbName ==> noCflC(scopes, e.Scopes)
+
+// some other-named entry has, in its current version, a collection of the config
+//@ pred someCurCfl(r *GatewayRegistry, dbName string, scopes ScopesConfig) bool
+//@   is exists g string, cg *RegistryConfigGroup, d string, e *RegistryDatabase :: {g in r.ConfigGroups, d in cg.Databases, e.Scopes} entIs(r, g, cg, d, e) && d != dbName && !noCflC(scopes, e.Scopes)
+
+//@ func GatewayRegistry.getCollectionConflicts
+//@   safety on
+//@   requires regWF(r)
+//@   ensures[none] len(activeConflicts) == 0 ==> noCurCfl(r, dbName, scopes)
+//@   ensures[only] len(activeConflicts) > 0 ==> someCurCfl(r, dbName, scopes)
+//@   loop 1 invariant[fresh] activeConflicts != nil
+//@   loop * invariant[len]   len(activeConflicts) >= 0 && (forall k base.ScopeAndCollectionName :: {k in activeConflicts} (k in activeConflicts) ==> len(activeConflicts) > 0)
+//@   loop * invariant[only]  len(activeConflicts) > 0 ==> someCurCfl(r, dbName, scopes)
+//@   loop 1 invariant[none]  len(activeConflicts) == 0 ==> (forall g string, cg *RegistryConfigGroup, d string, e *RegistryDatabase :: {tagE(g, cg, d, e)} (g in #visited1) && entIs(r, g, cg, d, e) && d != dbName ==> noCflV(scopes, e.Scopes))
+//@   loop 2 invariant[ctx]   activeConflicts != nil && configGroup != nil && (exists g string :: {g in r.ConfigGroups} (g in r.ConfigGroups) && r.ConfigGroups[g] == configGroup)
+//@   loop 2 invariant[none]  len(activeConflicts) == 0 ==> (forall g string, cg *RegistryConfigGroup, d string, e *RegistryDatabase :: {tagE(g, cg, d, e)} (g in #visited1) && cg != configGroup && entIs(r, g, cg, d, e) && d != dbName ==> noCflV(scopes, e.Scopes))
+//@   loop 2 invariant[cur]   len(activeConflicts) == 0 ==> (forall d string, e *RegistryDatabase :: {d in configGroup.Databases, e.Scopes} (d in #visited2) && e == configGroup.Databases[d] && d != dbName ==> noCflV(scopes, e.Scopes))
+//@   loop 3 invariant[ctx]   activeConflicts != nil && configGroup != nil && (exists g string :: {g in r.ConfigGroups} (g in r.ConfigGroups) && r.ConfigGroups[g] == configGroup) && (registryDbName in configGroup.Databases) && database == configGroup.Databases[registryDbName] && registryDbName != dbName
+//@   loop 3 invariant[none]  len(activeConflicts) == 0 ==> (forall g string, cg *RegistryConfigGroup, d string, e *RegistryDatabase :: {tagE(g, cg, d, e)} (g in #visited1) && cg != configGroup && entIs(r, g, cg, d, e) && d != dbName ==> noCflV(scopes, e.Scopes))
+//@   loop 3 invariant[cur]   len(activeConflicts) == 0 ==> (forall d string, e *RegistryDatabase :: {d in configGroup.Databases, e.Scopes} (d in #visited2) && e == configGroup.Databases[d] && d != dbName && d != registryDbName ==> noCflV(scopes, e.Scopes))
+//@   loop 3 invariant[this]  len(activeConflicts) == 0 ==> #index == -1
+
+// getPreviousConflicts: empty result <==> no other-named entry has, in the previous version it keeps while an update
+// is in flight, a collection of the config; every returned pair names such an entry.
+//@ pred noPrevCfl(r *GatewayRegistry, dbName string, scopes ScopesConfig) bool
+//@   is forall g string, cg *RegistryConfigGroup, d string, e *RegistryDatabase, p *RegistryDatabaseVersion :: {tagE(g, cg, d, e), tagP(e, p)} entIs(r, g, cg, d, e) && d != dbName && prevIs(e, p) ==> noCflC(scopes, p.Scopes)
+//@ pred inFlightOther(r *GatewayRegistry, dbName string, k configGroupAndDatabase) bool
+//@   is hasDb(r, k.configGroup, k.databaseName) && k.databaseName != dbName && dbAt(r, k.configGroup, k.databaseName).PreviousVersion != nil
+
+//@ func GatewayRegistry.getPreviousConflicts
+//@   safety on
+//@   requires regWF(r)
+//@   ensures[none]    len(previousConflicts) == 0 ==> noPrevCfl(r, dbName, scopes)
+//@   ensures[members] forall i int :: {previousConflicts[i]} 0 <= i && i < len(previousConflicts) ==> inFlightOther(r, dbName, previousConflicts[i])
+//@   loop 1 invariant[fresh]   conflictingDbs != nil
+//@   loop 1 invariant[members] forall k configGroupAndDatabase :: {k in conflictingDbs} (k in conflictingDbs) ==> inFlightOther(r, dbName, k)
+//@   loop 1 invariant[none]    (forall k configGroupAndDatabase :: {k in conflictingDbs} !(k in conflictingDbs)) ==> (forall g string, cg *RegistryConfigGroup, d string, e *RegistryDatabase, p *RegistryDatabaseVersion :: {tagE(g, cg, d, e), tagP(e, p)} (g in #visited1) && entIs(r, g, cg, d, e) && d != dbName && prevIs(e, p) ==> noCflV(scopes, p.Scopes))
+//@   loop 2 invariant[ctx]     conflictingDbs != nil && configGroup != nil && (cgName in r.ConfigGroups) && r.ConfigGroups[cgName] == configGroup
+//@   loop 2 invariant[members] forall k configGroupAndDatabase :: {k in conflictingDbs} (k in conflictingDbs) ==> inFlightOther(r, dbName, k)
+//@   loop 2 invariant[none]    (forall k configGroupAndDatabase :: {k in conflictingDbs} !(k in conflictingDbs)) ==> (forall g string, cg *RegistryConfigGroup, d string, e *RegistryDatabase, p *RegistryDatabaseVersion :: {tagE(g, cg, d, e), tagP(e, p)} (g in #visited1) && g != cgName && entIs(r, g, cg, d, e) && d != dbName && prevIs(e, p) ==> noCflV(scopes, p.Scopes))
+//@   loop 2 invariant[cur]     (forall k configGroupAndDatabase :: {k in conflictingDbs} !(k in conflictingDbs)) ==> (forall d string, e *RegistryDatabase, p *RegistryDatabaseVersion :: {d in configGroup.Databases, e.PreviousVersion, p.Scopes} (d in #visited2) && e == configGroup.Databases[d] && d != dbName && prevIs(e, p) ==> noCflV(scopes, p.Scopes))
+//@   loop 3 invariant[members] forall i int :: {previousConflicts[i]} 0 <= i && i < len(previousConflicts) ==> inFlightOther(r, dbName, previousConflicts[i])
+//@   loop 3 invariant[none]    len(previousConflicts) == 0 ==> (forall k configGroupAndDatabase :: {k in #visited3} !(k in #visited3))
+
+// ---------- building a registry entry from a database config ----------
+
+// every collection of the registry version rs is a collection of the config
+//@ pred subOfCfg(rs map[string]RegistryScope, cfg ScopesConfig) bool
+//@   is forall s string, cs []string, i int :: {s in rs, cs[i]} (s in rs) && cs == rs[s].Collections && 0 <= i && i < len(cs) ==> (s in cfg) && (cs[i] in cfg[s].Collections)
+// the same with "nothing recorded = default collection only" on both sides
+//@ pred subOfCfgV(x RegistryScopes, scopes ScopesConfig) bool
+//@   is (len(x) != 0 && len(scopes) != 0 ==> subOfCfg(x, scopes)) && (len(x) == 0 && len(scopes) != 0 ==> subOfCfg(defaultOnlyRegistryScopes, scopes)) &&
+//@      (len(x) != 0 && len(scopes) == 0 ==> subOfCfg(x, DefaultOnlyScopesConfig)) && (len(x) == 0 && len(scopes) == 0 ==> subOfCfg(defaultOnlyRegistryScopes, DefaultOnlyScopesConfig))
+
+// ASSUMPTION (precondition handed up to the callers): the registry-side "default collection only" value is not empty
+// and lists nothing but what the config-side one lists. True by their initialisers in config_registry.go
+// ({_default: [_default]} both); nothing in the package assigns them.
+//@ pred defaultsOK() bool
+//@   is len(defaultOnlyRegistryScopes) != 0 && len(DefaultOnlyScopesConfig) != 0 && subOfCfg(defaultOnlyRegistryScopes, DefaultOnlyScopesConfig)
+
+// ASSUMPTION (true of every Go map, but the verifier's map model only has "len == 0 ==> no key"): a map of
+// non-zero length has a key.
+//@ pred cfgLenOK(sc ScopesConfig) bool
+//@   is len(sc) != 0 ==> (exists s string :: {s in sc} s in sc)
+
+// (The converse of [sub] -- every collection of the config is recorded in the entry -- is not claimed: its loop
+// invariant is an existential over slice positions that the solvers cannot re-establish across append.)
+// Frame of registryDatabaseFromConfig: the only Scopes field written is the one of the new entry x.
+//@ pred scopesFrame(x *RegistryDatabase) bool
+//@   is forall p *RegistryDatabaseVersion :: {p.Scopes} p != vref(x.RegistryDatabaseVersion) ==> p.Scopes == old(p.Scopes)
+
+// The result and its scope map are new objects: the Scopes field component is therefore in the frame, with
+// scopesFrame(result) giving back every other Scopes field. (The contents of the new scope map are described by
+// [keys]/[sub]; no existing map or collection list is written: the function's map and slice writes all go to objects
+// it allocated itself, which [frame-maps]/[frame-lists] prove of the body -- the engine's syntactic FRAME-GAP note for
+// these components remains because `elems(<type>)` cannot be listed here, see the report.)
+//@ func registryDatabaseFromConfig
+//@   safety on
+//@   requires config != nil && cfgLenOK(config.Scopes)
+//@   modifies RegistryDatabaseVersion.Scopes
+//@   ensures[fresh]    result != nil && !old(allocated(now(result)))
+//@   ensures[version]  result.Version == config.Version && result.MetadataID == config.MetadataID && result.PreviousVersion == nil
+//@   ensures[default]  len(config.Scopes) == 0 ==> result.Scopes == old(defaultOnlyRegistryScopes)
+//@   ensures[nonempty] len(config.Scopes) != 0 ==> len(result.Scopes) != 0 && !old(allocated(now(result.Scopes)))
+//@   ensures[keys]     len(config.Scopes) != 0 ==> (forall s string :: {s in result.Scopes} {s in config.Scopes} (s in result.Scopes) <==> (s in config.Scopes))
+//@   ensures[sub]      len(config.Scopes) != 0 ==> subOfCfg(result.Scopes, config.Scopes)
+//@   ensures[frame]    scopesFrame(result)
+//@   ensures[frame-maps]  forall m RegistryScopes, s string :: {s in m} old(allocated(m)) ==> ((s in m) <==> old(s in m)) && m[s].Collections == old(m[s].Collections)
+//@   ensures[frame-lists] forall c []string, i int :: {c[i]} old(allocated(c)) ==> c[i] == old(c[i])
+//@   loop * invariant[res]   rdb != nil && !old(allocated(now(rdb))) && rdb.Scopes != nil && !old(allocated(now(rdb.Scopes))) && rdb.Version == config.Version && rdb.MetadataID == config.MetadataID && rdb.PreviousVersion == nil
+//@   loop * invariant[frame] scopesFrame(rdb)
+//@   loop * invariant[frame-maps]  forall m RegistryScopes, s string :: {s in m} old(allocated(m)) ==> ((s in m) <==> old(s in m)) && m[s].Collections == old(m[s].Collections)
+//@   loop * invariant[frame-lists] forall c []string, i int :: {c[i]} old(allocated(c)) ==> c[i] == old(c[i])
+//@   loop * invariant[len]   len(rdb.Scopes) >= 0 && (forall s string :: {s in rdb.Scopes} (s in rdb.Scopes) ==> len(rdb.Scopes) > 0)
+//@   loop * invariant[stored] forall s string :: {s in rdb.Scopes} (s in rdb.Scopes) ==> allocated(rdb.Scopes[s].Collections)
+//@   loop * invariant[vis]   forall s string :: {s in #visited1} (s in #visited1) ==> (s in config.Scopes)
+//@   loop * invariant[sub]   subOfCfg(rdb.Scopes, config.Scopes)
+//@   loop 1 invariant[keys]  forall s string :: {s in rdb.Scopes} {s in #visited1} (s in rdb.Scopes) <==> (s in #visited1)
+//@   loop 2 invariant[ctx]   (scopeName in config.Scopes) && scope.Collections == config.Scopes[scopeName].Collections && (scopeName in #visited1) && !(scopeName in rdb.Scopes)
+//@   loop 2 invariant[keys]  forall s string :: {s in rdb.Scopes} {s in #visited1} (s in rdb.Scopes) <==> (s in #visited1) && s != scopeName
+//@   loop 2 invariant[alloc] allocated(registryScope.Collections) && !old(allocated(now(registryScope.Collections)))
+//@   loop 2 invariant[apart] forall s string :: {s in rdb.Scopes} (s in rdb.Scopes) ==> !sameArray(rdb.Scopes[s].Collections, registryScope.Collections)
+//@   loop 2 invariant[cur-sub] forall i int :: {registryScope.Collections[i]} 0 <= i && i < len(registryScope.Collections) ==> (registryScope.Collections[i] in scope.Collections)
+
+// The result and its database map are new objects (the Databases field component is in the frame; every group that
+// existed before keeps its map).
+//@ func NewRegistryConfigGroup
+//@   safety on
+//@   modifies RegistryConfigGroup.Databases
+//@   ensures[fresh] result != nil && !old(allocated(now(result))) && result.Databases != nil && !old(allocated(now(result.Databases)))
+//@   ensures[empty] forall d string :: {d in result.Databases} !(d in result.Databases)
+//@   ensures[frame] forall cg *RegistryConfigGroup :: {cg.Databases} old(allocated(cg)) ==> cg.Databases == old(cg.Databases)
+
+// getCollectionsByDatabase (diagnostic listing used by getDbForCollection): memory safety only.
+//@ func GatewayRegistry.getCollectionsByDatabase
+//@   safety on
+//@   requires regWF(r)
+//@   ensures[fresh] result != nil
+//@   loop * invariant[fresh] collectionsByDatabase != nil
+//@   loop 2 invariant[ctx]   configGroup != nil
+//@   loop 3 invariant[ctx]   configGroup != nil && database != nil
+//@   loop 4 invariant[ctx]   configGroup != nil && database != nil
+
+// ---------- ownership invariant ----------
+
+// a version string that is neither the in-progress-delete marker nor the invalid-after-rollback marker
+//@ pred liveV(v string) bool
+//@   is v != deletedDatabaseVersion && v != invalidDatabaseConflictingCollectionsVersion
+
+// two registry versions share no collection
+//@ pred disjRS(a map[string]RegistryScope, b map[string]RegistryScope) bool
+//@   is forall s string, ca []string, cb []string, i int, j int :: {s in a, s in b, ca[i], cb[j]} (s in a) && (s in b) && ca == a[s].Collections && cb == b[s].Collections && 0 <= i && i < len(ca) && 0 <= j && j < len(cb) ==> ca[i] != cb[j]
+// the same for recorded scopes x, y with "nothing recorded = default collection only"
+//@ pred disjV(x RegistryScopes, y RegistryScopes) bool
+//@   is (len(x) != 0 && len(y) != 0 ==> disjRS(x, y)) && (len(x) == 0 && len(y) != 0 ==> disjRS(defaultOnlyRegistryScopes, y)) &&
+//@      (len(x) != 0 && len(y) == 0 ==> disjRS(x, defaultOnlyRegistryScopes)) && (len(x) == 0 && len(y) == 0 ==> disjRS(defaultOnlyRegistryScopes, defaultOnlyRegistryScopes))
+
+// Own(r), in three parts: for any two entries with different names (in any config groups) that are neither deleted
+// nor invalid, the collection sets of (current, current), (current, live previous) and (live previous, live previous)
+// versions are disjoint.
+//@ pred ownCC(r *GatewayRegistry) bool
+//@   is forall g1 string, cg1 *RegistryConfigGroup, d1 string, e1 *RegistryDatabase, g2 string, cg2 *RegistryConfigGroup, d2 string, e2 *RegistryDatabase :: {tagE(g1, cg1, d1, e1), tagE(g2, cg2, d2, e2)}
+//@      entIs(r, g1, cg1, d1, e1) && entIs(r, g2, cg2, d2, e2) && d1 != d2 && liveV(e1.Version) && liveV(e2.Version) ==> disjV(e1.Scopes, e2.Scopes)
+//@ pred ownCP(r *GatewayRegistry) bool
+//@   is forall g1 string, cg1 *RegistryConfigGroup, d1 string, e1 *RegistryDatabase, g2 string, cg2 *RegistryConfigGroup, d2 string, e2 *RegistryDatabase, p2 *RegistryDatabaseVersion :: {tagE(g1, cg1, d1, e1), tagE(g2, cg2, d2, e2), tagP(e2, p2)}
+//@      entIs(r, g1, cg1, d1, e1) && entIs(r, g2, cg2, d2, e2) && d1 != d2 && liveV(e1.Version) && liveV(e2.Version) && prevIs(e2, p2) && liveV(p2.Version) ==> disjV(e1.Scopes, p2.Scopes)
+//@ pred ownPP(r *GatewayRegistry) bool
+//@   is forall g1 string, cg1 *RegistryConfigGroup, d1 string, e1 *RegistryDatabase, p1 *RegistryDatabaseVersion, g2 string, cg2 *RegistryConfigGroup, d2 string, e2 *RegistryDatabase, p2 *RegistryDatabaseVersion :: {tagE(g1, cg1, d1, e1), tagP(e1, p1), tagE(g2, cg2, d2, e2), tagP(e2, p2)}
+//@      entIs(r, g1, cg1, d1, e1) && entIs(r, g2, cg2, d2, e2) && d1 != d2 && liveV(e1.Version) && liveV(e2.Version) && prevIs(e1, p1) && liveV(p1.Version) && prevIs(e2, p2) && liveV(p2.Version) ==> disjV(p1.Scopes, p2.Scopes)
+
+// Separation (true of a decoded registry document): different config groups have different database maps, and
+// different (group, name) keys lead to different entry objects.
+//@ pred regSep(r *GatewayRegistry) bool
+//@   is (forall g1 string, g2 string :: {g1 in r.ConfigGroups, g2 in r.ConfigGroups} (g1 in r.ConfigGroups) && (g2 in r.ConfigGroups) && g1 != g2 ==> r.ConfigGroups[g1].Databases != r.ConfigGroups[g2].Databases) &&
+//@      (forall g1 string, cg1 *RegistryConfigGroup, d1 string, g2 string, cg2 *RegistryConfigGroup, d2 string :: {g1 in r.ConfigGroups, d1 in cg1.Databases, g2 in r.ConfigGroups, d2 in cg2.Databases} entAt(r, g1, cg1, d1) && entAt(r, g2, cg2, d2) && (g1 != g2 || d1 != d2) ==> cg1.Databases[d1] != cg2.Databases[d2])
+
+// the address of a version record (used for the version embedded in an entry)
+//@ pred vref(p *RegistryDatabaseVersion) *RegistryDatabaseVersion
+//@   is p
+// Separation, continued (true of a decoded registry document and preserved by every function here, which only ever
+// store freshly allocated records in PreviousVersion): no PreviousVersion pointer of an entry points at the version
+// record embedded in a RegistryDatabase object (any such object, in the registry or not).
+//@ pred prevApart(r *GatewayRegistry) bool
+//@   is forall g string, cg *RegistryConfigGroup, d string, x *RegistryDatabase :: {g in r.ConfigGroups, d in cg.Databases, vref(x.RegistryDatabaseVersion)} entAt(r, g, cg, d) && x != nil ==> cg.Databases[d].PreviousVersion != vref(x.RegistryDatabaseVersion)
+
+// ---------- frames ----------
+
+// "exactly as it was", over all four nesting levels: the group map, every group's database map, every entry and
+// previous-version object, every scopes map and every collection list.
+//@ pred regSame(r *GatewayRegistry) bool
+//@   is r.ConfigGroups == old(r.ConfigGroups) &&
+//@      (forall g string :: {g in r.ConfigGroups} ((g in r.ConfigGroups) <==> old(g in r.ConfigGroups)) && r.ConfigGroups[g] == old(r.ConfigGroups[g])) &&
+//@      (forall cg *RegistryConfigGroup :: {cg.Databases} cg.Databases == old(cg.Databases)) &&
+//@      (forall cg *RegistryConfigGroup, d string :: {d in cg.Databases} ((d in cg.Databases) <==> old(d in cg.Databases)) && cg.Databases[d] == old(cg.Databases[d])) &&
+//@      (forall e *RegistryDatabase :: {e.Version} {e.Scopes} {e.PreviousVersion} {e.MetadataID} e.Version == old(e.Version) && e.Scopes == old(e.Scopes) && e.PreviousVersion == old(e.PreviousVersion) && e.MetadataID == old(e.MetadataID) && e.UUID == old(e.UUID)) &&
+//@      (forall p *RegistryDatabaseVersion :: {p.Version} {p.Scopes} p.Version == old(p.Version) && p.Scopes == old(p.Scopes)) &&
+//@      (forall m RegistryScopes, s string :: {s in m} ((s in m) <==> old(s in m)) && m[s].Collections == old(m[s].Collections)) &&
+//@      (forall c []string, i int :: {c[i]} c[i] == old(c[i]))
+
+// no map of the registry (group map, database maps) is touched
+//@ pred mapsSame(r *GatewayRegistry) bool
+//@   is r.ConfigGroups == old(r.ConfigGroups) &&
+//@      (forall g string :: {g in r.ConfigGroups} {old(g in r.ConfigGroups)} ((g in r.ConfigGroups) <==> old(g in r.ConfigGroups)) && r.ConfigGroups[g] == old(r.ConfigGroups[g])) &&
+//@      (forall cg *RegistryConfigGroup :: {cg.Databases} cg.Databases == old(cg.Databases)) &&
+//@      (forall cg *RegistryConfigGroup, d string :: {d in cg.Databases} {old(d in cg.Databases)} ((d in cg.Databases) <==> old(d in cg.Databases)) && cg.Databases[d] == old(cg.Databases[d]))
+
+// every entry object that existed before / other than x keeps its contents
+//@ pred entriesSame() bool
+//@   is forall e *RegistryDatabase :: {e.Version} {e.Scopes} {e.PreviousVersion} {e.MetadataID} old(allocated(e)) ==> e.Version == old(e.Version) && e.Scopes == old(e.Scopes) && e.PreviousVersion == old(e.PreviousVersion) && e.MetadataID == old(e.MetadataID)
+//@ pred entriesSameBut(x *RegistryDatabase) bool
+//@   is forall e *RegistryDatabase :: {e.Version} {e.Scopes} {e.PreviousVersion} {e.MetadataID} old(allocated(e)) && e != x ==> e.Version == old(e.Version) && e.Scopes == old(e.Scopes) && e.PreviousVersion == old(e.PreviousVersion) && e.MetadataID == old(e.MetadataID)
+// the previous-version record that an entry had on entry keeps its contents
+//@ pred prevsKept(r *GatewayRegistry) bool
+//@   is forall g string, cg *RegistryConfigGroup, d string :: {old(g in r.ConfigGroups), old(d in cg.Databases)} old(entAt(r, g, cg, d)) && old(cg.Databases[d].PreviousVersion) != nil ==>
+//@        old(cg.Databases[d].PreviousVersion).Version == old(cg.Databases[d].PreviousVersion.Version) && old(cg.Databases[d].PreviousVersion).Scopes == old(cg.Databases[d].PreviousVersion.Scopes)
+// the keys of the registry other than (g0, d0) and the entries they lead to are the same as before
+//@ pred keysSameBut(r *GatewayRegistry, g0 string, d0 string) bool
+//@   is forall g string, cg *RegistryConfigGroup, d string :: {g in r.ConfigGroups, d in cg.Databases} {old(g in r.ConfigGroups), old(d in cg.Databases)} (g != g0 || d != d0) ==> (entAt(r, g, cg, d) <==> old(entAt(r, g, cg, d))) && (entAt(r, g, cg, d) ==> cg.Databases[d] == old(cg.Databases[d]))
+
+// ---------- upsert ----------
+
+// upsertDatabaseConfig: a rejected change leaves the registry exactly as it was; a change is accepted only if no
+// other-named entry holds one of the config's collections (current or previous version) or its metadata ID; on
+// acceptance the entry of (group, name) is a new object carrying the config's version, metadata ID and collections,
+// with the replaced entry's version kept as PreviousVersion; every other entry is untouched; Own is preserved.
+//@ func GatewayRegistry.upsertDatabaseConfig
+//@   safety on
+//@   requires regWF(r) && regSep(r) && prevApart(r) && r.ConfigGroups != nil && defaultsOK()
+//@   requires[cfg-len] config != nil ==> cfgLenOK(config.Scopes)
+//@   modifies elems(r.ConfigGroups), elems(r.ConfigGroups[configGroupID].Databases), RegistryConfigGroup.Databases, RegistryDatabaseVersion.Scopes, RegistryDatabaseVersion.Version, RegistryDatabase.PreviousVersion, RegistryDatabase.MetadataID
+//@   ensures[nil-config]   config == nil ==> !isNilErr(err)
+//@   ensures[rejected]     !isNilErr(err) ==> regSame(r)
+//@   ensures[no-cur-conflict]  isNilErr(err) ==> old(noCurCfl(r, config.Name, config.Scopes))
+//@   ensures[no-prev-conflict] isNilErr(err) ==> old(noPrevCfl(r, config.Name, config.Scopes))
+//@   ensures[no-meta-conflict] isNilErr(err) ==> old(noMetaCfl(r, config.Name, config.MetadataID))
+//@   ensures[cur-conflict-rejected]  config != nil && !old(noCurCfl(r, config.Name, config.Scopes)) ==> !isNilErr(err)
+//@   ensures[in-flight]    forall i int :: {previousVersionConflicts[i]} 0 <= i && i < len(previousVersionConflicts) ==> inFlightOther(r, config.Name, previousVersionConflicts[i])
+//@   ensures[entry]        isNilErr(err) ==> hasDb(r, configGroupID, config.Name) && dbAt(r, configGroupID, config.Name) != nil && !old(allocated(now(dbAt(r, configGroupID, config.Name))))
+//@   ensures[version]      isNilErr(err) ==> dbAt(r, configGroupID, config.Name).Version == config.Version && dbAt(r, configGroupID, config.Name).MetadataID == config.MetadataID
+//@   ensures[collections]  isNilErr(err) ==> subOfCfgV(dbAt(r, configGroupID, config.Name).Scopes, config.Scopes)
+//@   ensures[previous]     isNilErr(err) && old(hasDb(r, configGroupID, config.Name)) ==> dbAt(r, configGroupID, config.Name).PreviousVersion != nil && !old(allocated(now(dbAt(r, configGroupID, config.Name).PreviousVersion))) && dbAt(r, configGroupID, config.Name).PreviousVersion.Version == old(dbAt(r, configGroupID, config.Name).Version) && dbAt(r, configGroupID, config.Name).PreviousVersion.Scopes == old(dbAt(r, configGroupID, config.Name).Scopes)
+//@   ensures[no-previous]  isNilErr(err) && !old(hasDb(r, configGroupID, config.Name)) ==> dbAt(r, configGroupID, config.Name).PreviousVersion == nil
+//@   ensures[others]       isNilErr(err) ==> keysSameBut(r, configGroupID, config.Name)
+//@   ensures[objects]      isNilErr(err) ==> entriesSame()
+//@   ensures[prevs]        isNilErr(err) ==> prevsKept(r)
+//@   ensures[tag]          isNilErr(err) ==> old(tagE(configGroupID, r.ConfigGroups[configGroupID], config.Name, dbAt(r, configGroupID, config.Name)))   // proof device: names the replaced entry for the Own clauses
+//@   ensures[wf]           isNilErr(err) ==> regWF(r)
+//@   ensures[sep]          isNilErr(err) ==> regSep(r)
+//@   ensures[apart]        isNilErr(err) ==> prevApart(r)
+//@   ensures[own-cc]       isNilErr(err) && old(ownCC(r)) ==> ownCC(r)
+//@   ensures[own-cp]       isNilErr(err) && old(ownCC(r) && ownCP(r)) ==> ownCP(r)
+//@   ensures[own-pp]       isNilErr(err) && old(ownCP(r) && ownPP(r)) ==> ownPP(r)
+
+// ---------- the other mutators ----------
+
+// deleteDatabase: marks the entry as an in-progress delete (its version moves to PreviousVersion, its collections
+// are released), touches nothing else, preserves Own.
+//@ func GatewayRegistry.deleteDatabase
+//@   safety on
+//@   requires regWF(r) && regSep(r) && prevApart(r)
+//@   modifies RegistryDatabase.PreviousVersion, RegistryDatabaseVersion.Version, RegistryDatabaseVersion.Scopes
+//@   ensures[not-found] !old(hasDb(r, configGroupID, dbName)) ==> result == box(base.ErrNotFound) && regSame(r)
+//@   ensures[found]     old(hasDb(r, configGroupID, dbName)) ==> isNilErr(result)
+//@   ensures[maps]      mapsSame(r)
+//@   ensures[marked]    old(hasDb(r, configGroupID, dbName)) ==> dbAt(r, configGroupID, dbName).IsDeleted() && dbAt(r, configGroupID, dbName).Scopes == nil
+//@   ensures[previous]  old(hasDb(r, configGroupID, dbName)) ==> dbAt(r, configGroupID, dbName).PreviousVersion != nil && !old(allocated(now(dbAt(r, configGroupID, dbName).PreviousVersion))) && dbAt(r, configGroupID, dbName).PreviousVersion.Version == old(dbAt(r, configGroupID, dbName).Version) && dbAt(r, configGroupID, dbName).PreviousVersion.Scopes == nil
+//@   ensures[others]    entriesSameBut(old(dbAt(r, configGroupID, dbName)))
+//@   ensures[prevs]     prevsKept(r)
+//@   ensures[wf]        regWF(r) && regSep(r)
+//@   ensures[apart]     prevApart(r)
+//@   ensures[own-cc]    old(ownCC(r)) ==> ownCC(r)
+//@   ensures[own-cp]    old(ownCP(r)) ==> ownCP(r)
+//@   ensures[own-pp]    old(ownPP(r)) ==> ownPP(r)
+
+// removeDatabase: removes the entry (and its config group when it becomes empty), touches nothing else, preserves Own.
+//@ func GatewayRegistry.removeDatabase
+//@   safety on
+//@   requires regWF(r) && regSep(r)
+//@   modifies elems(r.ConfigGroups), elems(r.ConfigGroups[configGroupID].Databases)
+//@   ensures[not-found] !old(hasDb(r, configGroupID, dbName)) ==> !result && regSame(r)
+//@   ensures[removed]   old(hasDb(r, configGroupID, dbName)) ==> result && !hasDb(r, configGroupID, dbName)
+//@   ensures[others]    keysSameBut(r, configGroupID, dbName)
+//@   ensures[no-new]    forall g string, cg *RegistryConfigGroup, d string :: {g in r.ConfigGroups, d in cg.Databases} entAt(r, g, cg, d) ==> old(entAt(r, g, cg, d)) && cg.Databases[d] == old(cg.Databases[d])
+//@   ensures[objects]   entriesSame() && prevsKept(r)
+//@   ensures[wf]        regWF(r) && regSep(r)
+//@   ensures[own-cc]    old(ownCC(r)) ==> ownCC(r)
+//@   ensures[own-cp]    old(ownCP(r)) ==> ownCP(r)
+//@   ensures[own-pp]    old(ownPP(r)) ==> ownPP(r)
+
+// removePreviousVersion: finalises an update -- drops the previous version if (and only if) it is the expected one.
+//@ func GatewayRegistry.removePreviousVersion
+//@   safety on
+//@   requires regWF(r) && regSep(r)
+//@   modifies RegistryDatabase.PreviousVersion
+//@   ensures[not-found] !old(hasDb(r, configGroupID, dbName)) ==> result == box(base.ErrNotFound) && regSame(r)
+//@   ensures[mismatch]  old(hasDb(r, configGroupID, dbName)) && (old(dbAt(r, configGroupID, dbName).PreviousVersion) == nil || old(dbAt(r, configGroupID, dbName).PreviousVersion.Version) != version) ==> result == box(base.ErrConfigVersionMismatch) && regSame(r)
+//@   ensures[removed]   old(hasDb(r, configGroupID, dbName)) && old(dbAt(r, configGroupID, dbName).PreviousVersion) != nil && old(dbAt(r, configGroupID, dbName).PreviousVersion.Version) == version ==> isNilErr(result) && dbAt(r, configGroupID, dbName).PreviousVersion == nil && dbAt(r, configGroupID, dbName).Version == old(dbAt(r, configGroupID, dbName).Version) && dbAt(r, configGroupID, dbName).Scopes == old(dbAt(r, configGroupID, dbName).Scopes)
+//@   ensures[maps]      mapsSame(r)
+//@   ensures[others]    entriesSameBut(old(dbAt(r, configGroupID, dbName))) && prevsKept(r)
+//@   ensures[wf]        regWF(r) && regSep(r)
+//@   ensures[own-cc]    old(ownCC(r)) ==> ownCC(r)
+//@   ensures[own-cp]    old(ownCP(r)) ==> ownCP(r)
+//@   ensures[own-pp]    old(ownPP(r)) ==> ownPP(r)
+
+// rollbackDatabaseConfig: with a previous version the entry goes back to it; without one the entry is rebuilt from
+// the config document and marked invalid when that collides with another database's current version.
+// The Own clauses assume the entry is not an in-progress delete (both call paths, getRegistryAndDatabase and
+// GetDatabaseConfigs, skip deleted entries before they can reach rollbackRegistry with a non-nil config).
+//@ func GatewayRegistry.rollbackDatabaseConfig
+//@   safety on
+//@   requires regWF(r) && regSep(r) && prevApart(r) && defaultsOK() && config != nil && cfgLenOK(config.Scopes)
+//@   modifies elems(r.ConfigGroups[configGroupID].Databases), RegistryDatabase.PreviousVersion, RegistryDatabaseVersion.Version, RegistryDatabaseVersion.Scopes
+//@   ensures[not-found] !old(hasDb(r, configGroupID, dbName)) ==> result == box(base.ErrNotFound) && regSame(r)
+//@   ensures[found]     old(hasDb(r, configGroupID, dbName)) ==> isNilErr(result) && hasDb(r, configGroupID, dbName)
+//@   ensures[restored]  old(hasDb(r, configGroupID, dbName)) && old(dbAt(r, configGroupID, dbName).PreviousVersion) != nil ==> dbAt(r, configGroupID, dbName) == old(dbAt(r, configGroupID, dbName)) && dbAt(r, configGroupID, dbName).Version == old(dbAt(r, configGroupID, dbName).PreviousVersion.Version) && dbAt(r, configGroupID, dbName).Scopes == old(dbAt(r, configGroupID, dbName).PreviousVersion.Scopes) && dbAt(r, configGroupID, dbName).PreviousVersion == nil
+//@   ensures[from-config] old(hasDb(r, configGroupID, dbName)) && old(dbAt(r, configGroupID, dbName).PreviousVersion) == nil ==> !old(allocated(now(dbAt(r, configGroupID, dbName)))) && dbAt(r, configGroupID, dbName).MetadataID == config.MetadataID && dbAt(r, configGroupID, dbName).PreviousVersion == nil && subOfCfgV(dbAt(r, configGroupID, dbName).Scopes, config.Scopes)
+//@   ensures[valid]     old(hasDb(r, configGroupID, dbName)) && old(dbAt(r, configGroupID, dbName).PreviousVersion) == nil && old(noCurCfl(r, dbName, config.Scopes)) ==> dbAt(r, configGroupID, dbName).Version == config.Version
+//@   ensures[invalid]   old(hasDb(r, configGroupID, dbName)) && old(dbAt(r, configGroupID, dbName).PreviousVersion) == nil && !old(noCurCfl(r, dbName, config.Scopes)) ==> dbAt(r, configGroupID, dbName).IsInvalid()
+//@   ensures[keys]      keysSameBut(r, configGroupID, dbName)
+//@   ensures[others]    entriesSameBut(old(dbAt(r, configGroupID, dbName)))
+//@   ensures[prevs]     prevsKept(r)
+//@   ensures[wf]        regWF(r) && regSep(r)
+//@   ensures[apart]     prevApart(r)
+//@   ensures[tag]       old(tagE(configGroupID, r.ConfigGroups[configGroupID], dbName, dbAt(r, configGroupID, dbName))) && old(tagP(dbAt(r, configGroupID, dbName), dbAt(r, configGroupID, dbName).PreviousVersion))   // proof device: names the rolled-back entry and its previous version for the Own clauses
+//@   ensures[own-cc]    old(ownCC(r) && ownCP(r)) && old(hasDb(r, configGroupID, dbName) && dbAt(r, configGroupID, dbName).PreviousVersion != nil ==> liveV(dbAt(r, configGroupID, dbName).Version)) ==> ownCC(r)
+//@   ensures[own-cp-restored]    old(ownCP(r) && ownPP(r)) && old(hasDb(r, configGroupID, dbName)) && old(dbAt(r, configGroupID, dbName).PreviousVersion) != nil && old(liveV(dbAt(r, configGroupID, dbName).Version)) ==> ownCP(r)
+//@   ensures[own-cp-from-config] old(ownCP(r)) && old(hasDb(r, configGroupID, dbName)) && old(dbAt(r, configGroupID, dbName).PreviousVersion) == nil ==> ownCP(r)
+//@   ensures[own-pp]    old(ownPP(r)) ==> ownPP(r)
